@@ -77,12 +77,13 @@ def impl_assign(chunk):
 
 
 def _packable(o, n):
-    return (not isinstance(o, str)) and len(o) == n and all(0 <= r < 64 and a >= 0 for a, r in o)
+    """every entry can be sent as aligned + rank (aligned a non-negative multiple of 64, 0 <= rank < 64)"""
+    return (not isinstance(o, str)) and len(o) == n and all(0 <= r < 64 and a >= 0 and a % 64 == 0 for a, r in o)
 
 
 def impl_assign_blocks(chunk):
-    """chunk: list of (prefix, vals, k, gs).  Per block and copy: the packed outputs (aligned*64+rank, concatenated over the cases in
-    itertools.product order), or the explicit list of outputs if some output cannot be packed."""
+    """chunk: list of (prefix, vals, k, gs).  Per block and copy: (w, one packed integer per case, in itertools.product order), or the
+    explicit list of outputs if some output cannot be packed."""
     cl = _classes()
     res = []
     for prefix, vals, k, gs in chunk:
@@ -90,8 +91,12 @@ def impl_assign_blocks(chunk):
         per = {}
         for c in COPIES:
             outs = [_call_assign(*cl[c], gs, s) for s in inputs]
+            n = len(prefix) + k
+            w = 0
             if all(_packable(o, len(s)) for o, s in zip(outs, inputs)):
-                per[c] = ("packed", tuple(a * 64 + r for o in outs for a, r in o))
+                w = max([1] + [(a + r).bit_length() for o in outs for a, r in o])
+            if w and n * w <= 62:       # one integer per case: entry i in bits [w*i, w*(i+1))
+                per[c] = ("packed", (w, tuple(sum((a + r) << (w * i) for i, (a, r) in enumerate(o)) for o in outs)))
             else:
                 per[c] = ("explicit", tuple(outs))
         res.append(per)
@@ -331,8 +336,16 @@ def zpairs(ps):
     return "[" + "; ".join(f"({zn(a)}, {zn(b)})" for a, b in ps) + "]"
 
 
+def il(xs):
+    """list of primitive-integer literals (read natively by coqc; converted with Uint63.to_Z in RunC14.zs); None if not representable"""
+    xs = [int(x) for x in xs]
+    if any(x < 0 or x >= 2 ** 62 for x in xs):
+        return None
+    return "[" + "; ".join(map(str, xs)) + "]%uint63"
+
+
 def flat(ps):
-    return zl([x for p in ps for x in p])
+    return [x for p in ps for x in p]
 
 
 def bl(bs):
@@ -349,7 +362,7 @@ def obs_lit(o):
     return f"(ObsAssigned {zpairs(o)})"
 
 
-HEADER = """From Coq Require Import ZArith List Bool String.
+HEADER = """From Coq Require Import Uint63 ZArith List Bool String.
 From Shampoo Require Import Show Assign AssignChecker.
 From ShampooExec Require Import RunC14.
 Import ListNotations. Open Scope Z_scope.
@@ -436,7 +449,7 @@ TIGHT = [((192, 192, 128, 128, 128), 2), ((320, 320, 256, 256, 192, 192, 192), 3
 
 def gen_assign_blocks(thorough: bool):
     """Exhaustive part of stream A: (prefix, vals, k, gs) stands for all lists prefix + t, t in vals^k, with group size gs."""
-    scopes = [(V8, 0, 6), (T4, 7, 7)] if thorough else [(V8, 0, 4), (V6, 5, 5), (V4, 5, 6)]
+    scopes = [(V8, 0, 6), (T4, 7, 7)] if thorough else [(V8, 0, 5), (V6, 6, 6)]
     blocks = []
     for vals, minn, maxn in scopes:
         for n in range(minn, maxn + 1):
@@ -543,11 +556,12 @@ def block_inputs(blk):
     return [prefix + t for t in itertools.product(vals, repeat=k)]
 
 
-def unpack_outputs(inputs, packed):
-    outs, pos = [], 0
-    for s in inputs:
-        outs.append(tuple((v // 64, v % 64) for v in packed[pos:pos + len(s)]))
-        pos += len(s)
+def unpack_outputs(inputs, data):
+    w, packed = data
+    outs = []
+    for s, v in zip(inputs, packed):
+        es = [(v >> (w * i)) & ((1 << w) - 1) for i in range(len(s))]
+        outs.append(tuple((e // 64 * 64, e % 64) for e in es))
     return outs
 
 
@@ -590,7 +604,7 @@ def run(ck: Check) -> None:
         prefix, vals, k, gs = a_blocks[bi]
         n = len(vals) ** k
         if kind == "packed":
-            return (f"{fn_block} {zl(prefix)} {zl(vals)} {k}%nat {gs} {zl(data)}", n)
+            return (f"{fn_block} {zl(prefix)} {zl(vals)} {k}%nat {gs} {data[0]} {il(data[1])}", n)
         return ("[" + "; ".join(fn_case(s, gs, o) for s, o in zip(block_inputs(a_blocks[bi]), data)) + "]", n)
 
     def agree_case(s, gs, o):
@@ -603,7 +617,9 @@ def run(ck: Check) -> None:
             return "false"                                  # the function must be total for gs >= 1
         return f"C14_assign_checkbZ {zl(s)} {gs} {zpairs(o)}"
 
+    tt = [time.time()]
     k_res = eval_lists(ck, "c14k", [k_entry(g, "agree_block", agree_case) for g in k_groups])
+    tt.append(time.time())
     # ---------------- stream A: random and hand-picked inputs ----------------
     a_cases = {}      # (sizes, gs, output) -> list of copies
     for (sizes, gs), per in zip(a_rand, a_out):
@@ -613,11 +629,12 @@ def run(ck: Check) -> None:
 
     def a_item(key, packed_fn, case_fn):
         s, gs, o = key
-        if _packable(o, len(s)):
-            return f"{packed_fn} {zl(s)} {gs} {zl([a * 64 + r for a, r in o])}"
+        if _packable(o, len(s)) and il(s) is not None:
+            return f"{packed_fn} {il(s)} {gs} {il([a + r for a, r in o])}"
         return case_fn(s, gs, o)
 
     a_flat = eval_bools(ck, "c14a", [a_item(k, "agree_packed", agree_case) for k in a_keys])
+    tt.append(time.time())
     a_bad = [(s, gs, o, a_cases[(s, gs, o)]) for (s, gs, o), b in zip(a_keys, a_flat) if b != "T"]
     for g, r in zip(k_groups, k_res):
         if "F" in r:
@@ -639,9 +656,12 @@ def run(ck: Check) -> None:
         if fr[0] == "exc":
             return "false"
         ok, bsr, views, total, local = fr
-        return f"andb {coq_bool(ok)} (agree_buffers_flat {zl(numels)} {DSIZE[dt]} {gs} {me} {flat(views)} {total} {local[0]} {local[1]})"
+        if il(flat(views)) is None:
+            return f"andb {coq_bool(ok)} (agree_buffers {zl(numels)} {DSIZE[dt]} {gs} {me} {zpairs(views)} {zn(total)} ({zn(local[0])}, {zn(local[1])}))"
+        return f"andb {coq_bool(ok)} (agree_buffers_flat {il(numels)} {DSIZE[dt]} {gs} {me} {il(flat(views))} {zn(total)} {zn(local[0])} {zn(local[1])})"
 
     b_flat = eval_bools(ck, "c14b", [b_item(k) for k in b_keys])
+    tt.append(time.time())
     b_bad = [k for k, b in zip(b_keys, b_flat) if b != "T"]
 
     # ---------------- stream C ----------------
@@ -655,12 +675,17 @@ def run(ck: Check) -> None:
         if "exc" in r:
             return "false"
         ds, gs, R = DSIZE[job["dt"]], job["gs"], job["R"]
-        sizes = zl([n * ds for n in r["numels"]])
+        sizes = [n * ds for n in r["numels"]]
         me = p % gs
-        return (f"andb {coq_bool(r['ok'])} (andb (agree_selector {sizes} {gs} {me} {bl(r['sel'])}) (andb (agree_state {sizes} {gs} {R} {me} {state_lit(r['state'])}) "
-                f"(agree_buffers_flat {zl(r['numels'])} {ds} {gs} {me} {flat(r['views'])} {r['total']} {r['local'][0]} {r['local'][1]})))")
+        fs = il([x for i, src, pos in r["state"] for x in (i, src, len(pos), *pos)])
+        st = (f"agree_state_flat {il(sizes)} {gs} {R} {me} {len(r['state'])} {fs}" if fs is not None
+              else f"agree_state {zl(sizes)} {gs} {R} {me} {state_lit(r['state'])}")
+        bf = (f"agree_buffers_flat {il(r['numels'])} {ds} {gs} {me} {il(flat(r['views']))} {zn(r['total'])} {zn(r['local'][0])} {zn(r['local'][1])}" if il(flat(r["views"])) is not None
+              else f"agree_buffers {zl(r['numels'])} {ds} {gs} {me} {zpairs(r['views'])} {zn(r['total'])} ({zn(r['local'][0])}, {zn(r['local'][1])})")
+        return f"andb {coq_bool(r['ok'])} (andb (agree_selector_i {il(sizes)} {gs} {me} {bl(r['sel'])}) (andb ({st}) ({bf})))"
 
     c_flat = eval_bools(ck, "c14c", [c_item(x) for x in c_cases])
+    tt.append(time.time())
     c_bad = [x for x, b in zip(c_cases, c_flat) if b != "T"]
     t_coq = time.time() - t0 - t_props - t_impl
 
@@ -696,10 +721,10 @@ def run(ck: Check) -> None:
             if fr[0] == "exc":
                 return "false"
             ok, bsr, views, total, local = fr
-            sizes = zl([n * DSIZE[dt] for n in numels])
-            if not _packable(bsr, len(numels)):
-                return "false"
-            return f"andb {coq_bool(ok)} (check_buffers_flat {sizes} {gs} {zl([a * 64 + r for a, r in bsr])} {flat(views)})"
+            sizes = [n * DSIZE[dt] for n in numels]
+            if not _packable(bsr, len(numels)) or il(flat(views)) is None:
+                return f"andb {coq_bool(ok)} (C14_checkbZ {zl(sizes)} {gs} {zpairs(bsr)} {zpairs(views)})"
+            return f"andb {coq_bool(ok)} (check_buffers_flat {il(sizes)} {gs} {il([a + r for a, r in bsr])} {il(flat(views))})"
         flatb = eval_bools(ck, "c14b_chk", [b_chk(k) for k in b_keys])
         failing = [k for k, b in zip(b_keys, flatb) if b != "T"]
         if failing:
@@ -817,7 +842,7 @@ def run(ck: Check) -> None:
     ck.coverage.update({
         "evaluations": total_eval,
         "distinct_nontrivial": nontriv,
-        "rule": (f"stream A: all lists over {'V8^<=6 and T4^7' if thorough else 'V8^<=4, V6^5, V4^5..6'} (V8={list(V8)}, V6={list(V6)}, V4={list(V4)}, T4={list(T4)}) x group sizes 1..4 (exhaustive; inputs enumerated inside Coq in "
+        "rule": (f"stream A: all lists over {'V8^<=6 and T4^7' if thorough else 'V8^<=5 and V6^6'} (V8={list(V8)}, V6={list(V6)}, V4={list(V4)}, T4={list(T4)}) x group sizes 1..4 (exhaustive; inputs enumerated inside Coq in "
                  f"itertools.product order) + group size 0 + LPT worst-case families + random lists (<= {256 if thorough else 64} blocks, groups <= {32 if thorough else 16}, numel x {{4,2}} bytes), each on the three copies "
                  f"(copies with identical outputs share one Coq evaluation); stream B: all lists of <= {4 if thorough else 3} numels over {list(N6)} x groups 1..4 x dtypes + random (three copies); "
                  "stream C: random cluster scenarios, every rank of one replication group, three copies; evaluations = implementation calls compared; distinct_nontrivial = distinct inputs with group size >= 2 and >= 2 blocks"),
@@ -848,7 +873,7 @@ def run(ck: Check) -> None:
         "stream C: the sequential stand-ins for dist / get_device_mesh / dtensor_zeros / _mesh_resources in harness/c14.py reproduce DeviceMesh group semantics",
         "coq/exec/RunC14.v (enumeration of the exhaustive inputs in itertools.product order, unpacking of aligned*64+rank) is part of the comparison machinery",
     ]
-    ck.notes.append(f"phase times (s): coq build + Print Assumptions {t_props:.1f}, implementation runs {t_impl:.1f}, case evaluation in coqc {t_coq:.1f}")
+    ck.notes.append(f"phase times (s): coq build + Print Assumptions {t_props:.1f}, implementation runs {t_impl:.1f}, case evaluation in coqc {t_coq:.1f} (A exhaustive {tt[1]-tt[0]:.1f}, A other {tt[2]-tt[1]:.1f}, B {tt[3]-tt[2]:.1f}, C {tt[4]-tt[3]:.1f})")
     ck.notes.append("lpt_four_thirds is fully proved (sharp form 4/3 - 1/(3 gs)); the brute-force comparison is reported as evidence only")
 
 
